@@ -273,7 +273,7 @@ func init() {
 	}
 
 	rstr := func(r *rand.Rand) string {
-		return pick(r, []string{"", "a", "a/b", "x/+/y", "zen", "é世", "topic/with/levels", "a\x00b", "\xff\xfe", strings.Repeat("k", 1+r.Intn(40))})
+		return pick(r, []string{"", "a", "a/b", "x/+/y", "zen", "é世", "topic/with/levels", "a\x00b", "\xff\xfe", "r/\uFFFD", "\U0001F321/t", strings.Repeat("k", 1+r.Intn(40))})
 	}
 	rbytes := func(r *rand.Rand) []byte {
 		b := make([]byte, r.Intn(6))
@@ -515,6 +515,39 @@ func init() {
 		emit("c.dec 5 64 2 0007")          // PUBACK short
 		emit("c.dec 5 64 3 000710")        // PUBACK with reason
 		emit("c.dec 5 64 4 00071000")      // PUBACK with reason and empty props
+		// UTF-8 boundaries as the topic of a QoS 0 PUBLISH (the strings of every field go through decodeString):
+		// first and last code point of each length, U+FFFD (a VALID code point that equals utf8.RuneError), U+FEFF,
+		// non-characters, surrogates, overlong forms, values above U+10FFFF, truncated and stray bytes
+		var u8 [][]byte
+		for _, s := range []string{"\uFFFD", "a\uFFFDb", "\uFFFD\uFFFD", "\uFEFF", "\uFFFE", "\uFFFF", "\U00010000", "\U0010FFFF", "\u0080", "\u07FF", "\u0800", "\uD7FF", "\uE000", "\u007F"} {
+			u8 = append(u8, []byte(s))
+		}
+		for _, l := range []byte{0x7F, 0x80, 0xBF, 0xC0, 0xC1, 0xC2, 0xDF} {
+			for _, t := range []byte{0x00, 0x7F, 0x80, 0xBF, 0xC0} {
+				u8 = append(u8, []byte{l, t})
+			}
+		}
+		for _, l := range []byte{0xE0, 0xE1, 0xEC, 0xED, 0xEE, 0xEF} {
+			for _, t1 := range []byte{0x7F, 0x80, 0x9F, 0xA0, 0xBF, 0xC0} {
+				for _, t2 := range []byte{0x7F, 0x80, 0xBD, 0xBE, 0xBF, 0xC0} {
+					u8 = append(u8, []byte{l, t1, t2})
+				}
+			}
+			u8 = append(u8, []byte{l, 0x80})
+		}
+		for _, l := range []byte{0xF0, 0xF1, 0xF3, 0xF4, 0xF5, 0xF8} {
+			for _, t1 := range []byte{0x80, 0x8F, 0x90, 0xBF} {
+				for _, t2 := range []byte{0x80, 0xBF} {
+					u8 = append(u8, []byte{l, t1, t2, 0x80}, []byte{l, t1, t2, 0xBF})
+				}
+			}
+			u8 = append(u8, []byte{l, 0x90, 0x80})
+		}
+		for _, tb := range u8 {
+			body := append([]byte{byte(len(tb) >> 8), byte(len(tb))}, tb...)
+			body = append(body, 'x')
+			emit(fmt.Sprintf("c.dec 4 48 %d %s", len(body), hx(body)))
+		}
 		// the repo's own packet catalogue
 		for t := byte(1); t <= 15; t++ {
 			for _, c := range packets.TPacketData[t] {
